@@ -396,7 +396,7 @@ func (rs *ResourceSubscription) processGetResponse(payload []byte, err error) (n
 		c := int64(len(sublist))
 		rs.subs = nil
 		rs.unregister()
-		verifNote("cacheGetErr", "name", rs.e.ResourceName, "query", rs.query, "subs", c)
+		verifNote("cacheGetErr", "name", rs.e.ResourceName, "query", rs.query, "subs", c, "rp", rs)
 
 		rs.e.removeCount(c)
 		nrs = rs
